@@ -195,6 +195,10 @@ def annotate_fn(sp, fn, spec, obligations, prefix):
     if spec.get("contract"):
         U.add_contract(sp, spec["contract"], spec.get("ret", "r"))
         obligations.append(("post:%s" % prefix, " ".join(spec["contract"].split())[:300]))
+    if spec.get("drop_body"):
+        # the body cannot be compiled in a single-file unit (external crates): only the signature + contract is kept
+        sp.rewrite(ts[fn.body_open].start, ts[fn.body_close].end, "{ unimplemented!() }", "body-dropped:%s" % fn.name)
+        return
     if spec.get("start"):
         U.body_insert_start(sp, spec["start"], "ghost:start")
     loops = U.find_for_loops(fn)
